@@ -391,3 +391,614 @@ Section Weight.
     Qed.
   End Forest.
 End Weight.
+
+(* ------------------------------------------------------------------ *)
+(* 2. the exact cost of layered proof sets, generically                *)
+
+(* Layers L 0, L 1, ... of delegations: every delegation of layer k+1 cites exactly the
+   delegations of layer k (all addressed to its issuer), the delegations of layer 0 cite
+   nothing; every delegation is valid and offers the one capability `rc`, from which the
+   claimed capability `c` derives unchanged.  The widths of the layers are arbitrary. *)
+Section Layered.
+  Variable U : link -> option token.
+  Variable C : ctx.
+  Variable ds : desc.
+  Variable c : cap.
+  Variable rc : rawcap.
+  Variable L : nat -> list dlg.
+
+  Definition cites (d : dlg) (ps : list dlg) : Prop :=
+    exists t, tok U d = Some t /\ aligned U t (proofs_view U C d t) = ps.
+  Definition below (k : nat) : list dlg := match k with O => [] | S k' => L k' end.
+
+  Hypothesis Hcites : forall k d, In d (L k) -> cites d (below k).
+  Hypothesis Hval : forall cp k d, In d (L k) ->
+    exists l key, validate U C cp d (L k) = (VOk, [EvVerify l key]).
+  Hypothesis Hcaps : forall k d, In d (L k) -> caps_of U d = [(rc, d)].
+  Hypothesis Hrc : resolve_cap ds c rc = Some c.
+  Hypothesis Hder : ds_derives ds c c = true.
+  Hypothesis Hparse : parse_cap ds rc = Some c.
+
+  Definition mk (d : dlg) : matchv := ((rc, d), c).
+
+  (* validating a layer: one verification per member, every member yields its capability *)
+  Lemma sources_L cp k : forall l, incl l (L k) ->
+    exists ev, sources_of U C cp l (L k) = (Some (map (fun d => (rc, d)) l), ev) /\
+               count_verifies ev = N.of_nat (length l).
+  Proof.
+    induction l as [|d l IH]; intros Hin; cbn [sources_of].
+    - exists []. split; reflexivity.
+    - destruct (Hval cp k d (Hin d (or_introl eq_refl))) as [lk [key V]]. rewrite V.
+      destruct (IH (fun x Hx => Hin x (or_intror Hx))) as [ev [E N]]. rewrite E.
+      rewrite (Hcaps k d (Hin d (or_introl eq_refl))).
+      eexists. split; [reflexivity|]. cbn [snd]. rewrite cv_app, cv_one, N. cbn [length]. lia.
+  Qed.
+
+  Lemma select_L l :
+    exists evd, select_derived ds c (map (fun d => (rc, d)) l) = (map mk l, evd) /\ count_verifies evd = 0.
+  Proof.
+    induction l as [|d l IH]; cbn [select_derived map].
+    - exists []. split; reflexivity.
+    - destruct IH as [evd [E N]]. rewrite E. cbn [fst]. rewrite Hrc, Hder.
+      eexists. split; [reflexivity|]. cbn [snd]. rewrite cv_cons. cbn [is_verify]. lia.
+  Qed.
+
+  Lemma resolve_sources_cites cp d ps : cites d ps ->
+    resolve_sources U C cp d = sources_of U C cp ps ps.
+  Proof. intros [t [T A]]. unfold resolve_sources. rewrite T, A. reflexivity. Qed.
+
+  (* ---- every root fails: the whole DAG is explored ---- *)
+  Section Failing.
+    Hypothesis Hfail : forall k d, In d (L k) -> can_issue C c (iss_of U d) = false.
+
+    (* verifications made by Authorize for a match on a delegation that cites layer k-1 *)
+    Fixpoint acost (k : nat) : N :=
+      match k with O => 0 | S k' => N.of_nat (length (L k')) * (1 + acost k') end.
+
+    Lemma auth_loop_fail rec (a : N) : forall l,
+      (forall d, In d l -> can_issue C c (iss_of U d) = false /\
+                 exists e, fst (rec (mk d)) = AErr e /\ count_verifies (snd (rec (mk d))) = a) ->
+      forall failed, exists e, fst (auth_loop U C rec (map mk l) failed) = AErr e /\
+        count_verifies (snd (auth_loop U C rec (map mk l) failed)) = N.of_nat (length l) * a.
+    Proof.
+      induction l as [|d l IH]; intros H failed; cbn [auth_loop map].
+      - eexists. split; reflexivity.
+      - destruct (H d (or_introl eq_refl)) as [CI [e [R N]]].
+        change (m_cap (mk d)) with c. change (m_dlg (mk d)) with d. rewrite CI.
+        destruct (rec (mk d)) as [r ev]. cbn [fst snd] in R, N. subst r.
+        destruct (IH (fun x Hx => H x (or_intror Hx)) true) as [e' [R' N']].
+        destruct (auth_loop U C rec (map mk l) true) as [r' ev']. cbn [fst snd] in *.
+        exists e'. split; [exact R'|]. rewrite cv_app, N, N'. cbn [length]. lia.
+    Qed.
+
+    Lemma authorize_fail cp : forall k n d, (k < n)%nat -> cites d (below k) ->
+      exists e, fst (authorize U C cp n ds (mk d)) = AErr e /\
+                count_verifies (snd (authorize U C cp n ds (mk d))) = acost k.
+    Proof.
+      induction k as [|k IH]; intros n d Hn Hc; (destruct n as [|n]; [lia|]);
+        cbn [authorize]; change (m_dlg (mk d)) with d; change (m_cap (mk d)) with c;
+        rewrite (resolve_sources_cites cp d _ Hc); cbn [below].
+      - cbn. eexists. split; reflexivity.
+      - destruct (sources_L cp k (L k) (fun x H => H)) as [ev [E N]]. rewrite E.
+        destruct (select_L (L k)) as [evd [E2 N2]]. rewrite E2.
+        destruct (auth_loop_fail (authorize U C cp n ds) (acost k) (L k)) with (failed := false) as [e [R N3]].
+        { intros p Hp. split; [exact (Hfail k p Hp)|]. apply IH; [lia | exact (Hcites k p Hp)]. }
+        destruct (auth_loop U C (authorize U C cp n ds) (map mk (L k)) false) as [r ev'].
+        cbn [fst snd] in *. exists e. split; [exact R|].
+        rewrite !cv_app, N, N2, N3. cbn [acost]. lia.
+    Qed.
+
+    (* Access on an invocation that is the single member of layer D *)
+    Theorem access_layered_fail D n inv : L D = [inv] -> (D + 2 <= n)%nat ->
+      exists e, fst (access U C n ds inv) = AErr e /\
+                count_verifies (snd (access U C n ds inv)) = 1 + acost D.
+    Proof.
+      intros LD Hn. unfold access. destruct n as [|n]; [lia|]. cbn [claim]. unfold claim_body.
+      assert (Hin : In inv (L D)) by (rewrite LD; left; reflexivity).
+      destruct (sources_L (claim U C n) D (L D) (fun x H => H)) as [ev [E N]].
+      rewrite LD in E, N. rewrite E. cbn [map select_top filter_map fst]. rewrite Hparse.
+      cbn [claim_loop]. change (m_cap (rc, inv, c)) with c. change (m_dlg (rc, inv, c)) with inv.
+      rewrite (Hfail D inv Hin).
+      destruct (authorize_fail (claim U C n) D n inv ltac:(lia) (Hcites D inv Hin)) as [e [R N2]].
+      change (rc, inv, c) with (mk inv).
+      destruct (authorize U C (claim U C n) n ds (mk inv)) as [r ev']. cbn [fst snd] in *. subst r.
+      eexists. split; [reflexivity|]. cbn [snd]. rewrite !cv_app, N, N2, cv_nil. cbn [length]. lia.
+    Qed.
+  End Failing.
+
+  (* ---- the roots (layer 0) own the resource: the first path succeeds ---- *)
+  Section Succeeding.
+    Hypothesis Hroot : forall d, In d (L 0) -> can_issue C c (iss_of U d) = true.
+    Hypothesis Hinner : forall k d, In d (L (S k)) -> can_issue C c (iss_of U d) = false.
+    Hypothesis Hnorev : forall a, revoked C a = false.
+
+    Fixpoint ocost (k : nat) : N :=
+      match k with O => 0 | S k' => N.of_nat (length (L k')) + ocost k' end.
+
+    Lemma authorize_ok cp : forall k n d, (k < n)%nat -> (forall i, (i <= k)%nat -> L i <> []) ->
+      cites d (L k) ->
+      exists a, fst (authorize U C cp n ds (mk d)) = AOk a /\
+                count_verifies (snd (authorize U C cp n ds (mk d))) = ocost (S k).
+    Proof.
+      induction k as [|k IH]; intros n d Hn Hne Hc; (destruct n as [|n]; [lia|]);
+        cbn [authorize]; change (m_dlg (mk d)) with d; change (m_cap (mk d)) with c;
+        rewrite (resolve_sources_cites cp d _ Hc).
+      - destruct (sources_L cp 0 (L 0) (fun x H => H)) as [ev [E N]]. rewrite E.
+        destruct (select_L (L 0)) as [evd [E2 N2]]. rewrite E2.
+        destruct (L 0) as [|p l] eqn:L0; [exfalso; apply (Hne 0%nat); [lia | exact L0]|].
+        cbn [map auth_loop]. change (m_cap (mk p)) with c. change (m_dlg (mk p)) with p.
+        rewrite (Hroot p (or_introl eq_refl)). cbn [fst snd].
+        eexists. split; [reflexivity|]. cbn [snd]. rewrite !cv_app, N, N2, cv_nil. cbn [ocost]. rewrite L0. lia.
+      - destruct (sources_L cp (S k) (L (S k)) (fun x H => H)) as [ev [E N]]. rewrite E.
+        destruct (select_L (L (S k))) as [evd [E2 N2]]. rewrite E2.
+        destruct (L (S k)) as [|p l] eqn:LS; [exfalso; apply (Hne (S k)); [lia | exact LS]|].
+        assert (Hp : In p (L (S k))) by (rewrite LS; left; reflexivity).
+        cbn [map auth_loop]. change (m_cap (mk p)) with c. change (m_dlg (mk p)) with p.
+        rewrite (Hinner k p Hp).
+        destruct (IH n p ltac:(lia) (fun i Hi => Hne i ltac:(lia)) (Hcites (S k) p Hp)) as [a [R N3]].
+        destruct (authorize U C cp n ds (mk p)) as [r ev']. cbn [fst snd] in *. subst r.
+        eexists. split; [reflexivity|]. cbn [snd]. rewrite !cv_app, N, N2, N3. cbn [ocost]. rewrite LS. cbn [length]. lia.
+    Qed.
+
+    Theorem access_layered_ok D n inv : L D = [inv] -> (D + 2 <= n)%nat ->
+      (forall i, (i < D)%nat -> L i <> []) ->
+      exists a, fst (access U C n ds inv) = AOk a /\
+                count_verifies (snd (access U C n ds inv)) = 1 + ocost D.
+    Proof.
+      intros LD Hn Hne. unfold access. destruct n as [|n]; [lia|]. cbn [claim]. unfold claim_body.
+      assert (Hin : In inv (L D)) by (rewrite LD; left; reflexivity).
+      destruct (sources_L (claim U C n) D (L D) (fun x H => H)) as [ev [E N]].
+      rewrite LD in E, N. rewrite E. cbn [map select_top filter_map fst]. rewrite Hparse.
+      cbn [claim_loop]. change (m_cap (rc, inv, c)) with c. change (m_dlg (rc, inv, c)) with inv.
+      destruct D as [|D].
+      - rewrite (Hroot inv Hin), Hnorev. cbn [fst snd].
+        eexists. split; [reflexivity|]. cbn [snd]. rewrite cv_app, N, cv_cons, cv_nil. cbn. lia.
+      - rewrite (Hinner D inv Hin).
+        destruct (authorize_ok (claim U C n) D n inv ltac:(lia) (fun i Hi => Hne i ltac:(lia)) (Hcites (S D) inv Hin))
+          as [a [R N2]].
+        change (rc, inv, c) with (mk inv).
+        destruct (authorize U C (claim U C n) n ds (mk inv)) as [r ev']. cbn [fst snd] in *. subst r.
+        rewrite Hnorev. cbn [fst snd].
+        eexists. split; [reflexivity|]. cbn [snd]. rewrite !cv_app, N, N2, cv_cons, cv_nil. cbn [length is_verify]. lia.
+    Qed.
+  End Succeeding.
+End Layered.
+
+(* ------------------------------------------------------------------ *)
+(* generic facts used to evaluate the validator on concrete stores      *)
+
+Lemma alookup_unique {V} k (v : V) m :
+  In (k, v) m -> (forall v', In (k, v') m -> v' = v) -> alookup k m = Some v.
+Proof.
+  induction m as [|[k' v'] m IH]; intros Hin Hu; [destruct Hin|]. cbn [alookup].
+  destruct (k =? k') eqn:E.
+  - apply N.eqb_eq in E. subst k'. f_equal. apply Hu. left. reflexivity.
+  - apply IH.
+    + destruct Hin as [H|H]; [|exact H]. inversion H. subst. rewrite N.eqb_refl in E. discriminate.
+    + intros v'' H. apply Hu. right. exact H.
+Qed.
+
+Lemma slookup_unique {V} k (v : V) m :
+  In (k, v) m -> (forall v', In (k, v') m -> v' = v) -> slookup k m = Some v.
+Proof.
+  induction m as [|[k' v'] m IH]; intros Hin Hu; [destruct Hin|]. cbn [slookup].
+  destruct (beq k k') eqn:E.
+  - apply beq_eq in E. subst k'. f_equal. apply Hu. left. reflexivity.
+  - apply IH.
+    + destruct Hin as [H|H]; [|exact H]. inversion H. subst. rewrite beq_refl in E. discriminate.
+    + intros v'' H. apply Hu. right. exact H.
+Qed.
+
+Lemma filter_map_all {A B} (F : A -> option B) (G : A -> B) l :
+  (forall x, In x l -> F x = Some (G x)) -> filter_map F l = map G l.
+Proof.
+  induction l as [|x l IH]; intros H; cbn [filter_map map]; [reflexivity|].
+  rewrite (H x (or_introl eq_refl)), (IH (fun y Hy => H y (or_intror Hy))). reflexivity.
+Qed.
+
+Lemma filter_all {A} (f : A -> bool) l : (forall x, In x l -> f x = true) -> filter f l = l.
+Proof.
+  induction l as [|x l IH]; intros H; cbn [filter]; [reflexivity|].
+  rewrite (H x (or_introl eq_refl)), (IH (fun y Hy => H y (or_intror Hy))). reflexivity.
+Qed.
+
+Lemma existsb_eqb_in l (vis : list N) : In l vis -> existsb (N.eqb l) vis = true.
+Proof. intros H. apply existsb_exists. exists l. split; [exact H | apply N.eqb_refl]. Qed.
+
+Lemma flat_map_length_const {A B} (f : A -> list B) (w : nat) l :
+  (forall x, length (f x) = w) -> length (flat_map f l) = (length l * w)%nat.
+Proof.
+  intros H. induction l as [|x l IH]; cbn [flat_map length]; [reflexivity|].
+  rewrite app_length, H, IH. lia.
+Qed.
+
+(* Validate of a did:key-issued token inside its window whose signature verifies:
+   accepted with exactly one verification, whatever the siblings and the session level *)
+Lemma validate_key U C cp d sibs t v :
+  tok U d = Some t ->
+  is_expired (t_exp t) (now C) = false -> is_too_early (t_nbf t) (now C) = false ->
+  prefixb did_key_prefix (did_str (t_iss t)) = true ->
+  parse_principal C (did_str (t_iss t)) = Some v ->
+  existsb (N.eqb (t_sigcode t)) known_sigcodes = true ->
+  t_iss t = v_did v -> t_sigcode t = v_sigcode v -> t_signer t = Some (v_key v) ->
+  validate U C cp d sibs = (VOk, [EvVerify (d_link d) (v_key v)]).
+Proof.
+  intros T E1 E2 K PP SC I S G. unfold validate. rewrite T, E1, E2.
+  unfold verify_authorization. rewrite K, PP. unfold verify_sig. rewrite SC, I, S, G.
+  assert (did_eqb (v_did v) (v_did v) = true) as -> by (apply did_eqb_eq; reflexivity).
+  rewrite !N.eqb_refl. reflexivity.
+Qed.
+
+(* all cited proofs are carried by the delegation and present in the store *)
+Lemma proofs_view_all U C d t :
+  (forall l, In l (t_prf t) -> visible d l = true /\ U l <> None) ->
+  proofs_view U C d t = map (fun l => mkDlg l (d_vis d)) (t_prf t).
+Proof.
+  intros H. unfold proofs_view. apply filter_map_all. intros l Hl.
+  destruct (H l Hl) as [V N]. rewrite V. destruct (U l); [reflexivity | contradiction].
+Qed.
+
+(* ------------------------------------------------------------------ *)
+(* 3. the family of layered worlds, all widths and depths              *)
+
+(* `d` layers of `w` delegations; every delegation of layer k+1 cites every delegation of
+   layer k; the invocation cites every delegation of the top layer.  Layer 0 is issued by the
+   owner of the resource (ok = true: every path succeeds at its end) or by a stranger
+   (ok = false: every path fails at its end).  Same principals, capability and context as
+   ValidatorCost.layered_world; delegations are numbered k*w + j + 1 (no collisions for any
+   width), the invocation is number 0, and the fuel is a parameter.  w = 1 gives chains. *)
+Definition svc : did := Did true (bs "did:key:svc").
+Definition rc_add : rawcap := mkRaw c_add owner_with (NbMap []).
+Definition cap_add : cap := mkCap c_add owner_with [].
+
+Definition lnk (w k j : nat) : link := N.of_nat (S (k * w + j)).
+Definition layer_lnks (w k : nat) : list link := map (lnk w k) (seq 0 w).
+Definition root_iss (ok : bool) : did := if ok then prin 0 else stranger.
+Definition root_key (ok : bool) : N := if ok then 0 else 99.
+
+Definition ltok (ok : bool) (w k : nat) (aud : did) : token :=
+  mkTok (match k with O => root_iss ok | S _ => prin (N.of_nat k) end) aud [rc_add]
+        (match k with O => [] | S k' => layer_lnks w k' end) None 0%Z 53485
+        (Some (match k with O => root_key ok | S _ => N.of_nat k end)).
+
+Definition lay_tokens (ok : bool) (w d : nat) : list (link * token) :=
+  flat_map (fun k => map (fun j => (lnk w k j, ltok ok w k (prin (N.of_nat (S k))))) (seq 0 w)) (seq 0 d)
+  ++ [(0, ltok ok w d svc)].
+
+Definition lay_principals (d : nat) : list (bstr * verifier) :=
+  (did_str stranger, mkVf 99 53485 stranger) ::
+  map (fun i => (did_str (prin (N.of_nat i)), mkVf (N.of_nat i) 53485 (prin (N.of_nat i)))) (seq 0 (S d)).
+
+Definition lay_world (ok : bool) (w d : nat) : wcase :=
+  let toks := lay_tokens ok w d in
+  {| wc_id := 0; wc_tokens := toks; wc_inv := mkDlg 0 (map fst toks); wc_can := c_add;
+     wc_authority := mkVf 1000 53485 svc; wc_self := true; wc_owners := [];
+     wc_revoked := []; wc_resolver := []; wc_principals := lay_principals d;
+     wc_keyres := []; wc_now := 50%Z;
+     ob_auth := ok; ob_path := []; ob_verifies := []; ob_checks := []; ob_derives := []; ob_err_revoked := false |}.
+
+Definition chain (ok : bool) (d : nat) : wcase := lay_world ok 1 d.
+
+(* Access with an explicit amount of fuel (run_world fixes it to Check_Validator.fuel = 40) *)
+Definition run_at (n : nat) (w : wcase) : ares * list event :=
+  access (wc_U w) (wc_ctx w) n (std_desc (wc_can w)) (wc_inv w).
+Definition verifications_at (n : nat) (w : wcase) : N := count_verifies (snd (run_at n w)).
+
+Lemma verifications_at_fuel w : verifications w = verifications_at fuel w.
+Proof. reflexivity. Qed.
+
+(* 1 + w + w^2 + ... + w^d *)
+Fixpoint geo (w : N) (d : nat) : N :=
+  match d with O => 1 | S d' => 1 + w * geo w d' end.
+
+Lemma geo_closed w d : (w - 1) * geo w d + 1 = w ^ N.of_nat (S d) \/ w = 0.
+Proof.
+  destruct (N.eq_dec w 0) as [->|NZ]; [right; reflexivity|left].
+  induction d as [|d IH].
+  - cbn [geo]. rewrite N.pow_1_r. lia.
+  - cbn [geo]. replace (N.of_nat (S (S d))) with (N.succ (N.of_nat (S d))) by lia.
+    rewrite N.pow_succ_r'. rewrite <- IH. nia.
+Qed.
+
+Lemma geo_ge_pow w d : w ^ N.of_nat d <= geo w d.
+Proof.
+  induction d as [|d IH]; cbn [geo]; [cbn; lia|].
+  replace (N.of_nat (S d)) with (N.succ (N.of_nat d)) by lia. rewrite N.pow_succ_r'. nia.
+Qed.
+
+Lemma geo_one d : geo 1 d = N.of_nat d + 1.
+Proof. induction d as [|d IH]; cbn [geo]; lia. Qed.
+
+Section Family.
+  Variable ok : bool.
+  Variable w d : nat.
+
+  Let W := lay_world ok w d.
+  Let U := wc_U W.
+  Let C := wc_ctx W.
+  Let vis := map fst (lay_tokens ok w d).
+  Let inv := mkDlg 0 vis.
+
+  Definition layer_dlgs (k : nat) : list dlg := map (fun l => mkDlg l vis) (layer_lnks w k).
+  Definition LL (k : nat) : list dlg :=
+    if (k <? d)%nat then layer_dlgs k else if (k =? d)%nat then [inv] else [].
+
+  Lemma lnk_inj k j k' j' : (j < w)%nat -> (j' < w)%nat -> lnk w k j = lnk w k' j' -> k = k' /\ j = j'.
+  Proof.
+    unfold lnk. intros A B H. assert (E : (k * w + j = k' * w + j')%nat) by lia. clear H.
+    destruct (Nat.lt_trichotomy k k') as [Lt|[Eq|Gt]].
+    - pose proof (Nat.mul_le_mono_r (S k) k' w ltac:(lia)). cbn [Nat.mul] in *. lia.
+    - subst. lia.
+    - pose proof (Nat.mul_le_mono_r (S k') k w ltac:(lia)). cbn [Nat.mul] in *. lia.
+  Qed.
+
+  Lemma lay_lookup k j : (k < d)%nat -> (j < w)%nat ->
+    U (lnk w k j) = Some (ltok ok w k (prin (N.of_nat (S k)))).
+  Proof.
+    intros Hk Hj. unfold U, W, wc_U, lay_world, wc_tokens. apply alookup_unique.
+    - unfold lay_tokens. apply in_or_app. left. apply in_flat_map. exists k.
+      split; [apply in_seq; lia|]. apply in_map_iff. exists j. split; [reflexivity | apply in_seq; lia].
+    - intros v' H. unfold lay_tokens in H. apply in_app_or in H. destruct H as [H|[H|[]]].
+      + apply in_flat_map in H. destruct H as [k' [_ H]]. apply in_map_iff in H.
+        destruct H as [j' [E Hj']]. apply in_seq in Hj'. pose proof (f_equal fst E) as E1; pose proof (f_equal snd E) as E2; cbn [fst snd] in E1, E2.
+        destruct (lnk_inj k' j' k j ltac:(lia) Hj E1) as [-> ->]. symmetry. exact E2.
+      + pose proof (f_equal fst H) as E1. cbn [fst] in E1. unfold lnk in E1. lia.
+  Qed.
+
+  Lemma lay_lookup_inv : U 0 = Some (ltok ok w d svc).
+  Proof.
+    unfold U, W, wc_U, lay_world, wc_tokens. apply alookup_unique.
+    - unfold lay_tokens. apply in_or_app. right. left. reflexivity.
+    - intros v' H. unfold lay_tokens in H. apply in_app_or in H. destruct H as [H|[H|[]]].
+      + apply in_flat_map in H. destruct H as [k' [_ H]]. apply in_map_iff in H.
+        destruct H as [j' [E Hj']]. pose proof (f_equal fst E) as E1. cbn [fst] in E1. unfold lnk in E1. lia.
+      + pose proof (f_equal snd H) as E2. cbn [snd] in E2. symmetry. exact E2.
+  Qed.
+
+  Lemma lnk_visible k j : (k < d)%nat -> (j < w)%nat -> In (lnk w k j) vis.
+  Proof.
+    intros Hk Hj. unfold vis, lay_tokens. rewrite map_app. apply in_or_app. left.
+    apply in_map_iff. exists (lnk w k j, ltok ok w k (prin (N.of_nat (S k)))). split; [reflexivity|].
+    apply in_flat_map. exists k. split; [apply in_seq; lia|]. apply in_map_iff. exists j.
+    split; [reflexivity | apply in_seq; lia].
+  Qed.
+
+  Lemma prin_inj i i' : did_str (prin i) = did_str (prin i') -> i = i'.
+  Proof. unfold prin, did_str. intros H. apply app_inv_head in H.
+    apply (f_equal (fun l => hd 0 l)) in H. cbn [hd] in H. lia.
+  Qed.
+
+  Lemma prin_lookup i : (i <= d)%nat ->
+    parse_principal C (did_str (prin (N.of_nat i))) = Some (mkVf (N.of_nat i) 53485 (prin (N.of_nat i))).
+  Proof.
+    intros Hi. unfold C, W. cbn [wc_ctx parse_principal lay_world wc_principals]. apply slookup_unique.
+    - right. apply in_map_iff. exists i. split; [reflexivity | apply in_seq; lia].
+    - intros v' [H|H].
+      + exfalso. pose proof (f_equal fst H) as E1. cbn in E1. discriminate E1.
+      + apply in_map_iff in H. destruct H as [i' [E _]]. pose proof (f_equal fst E) as E1; pose proof (f_equal snd E) as E2; cbn [fst snd] in E1, E2.
+        apply prin_inj in E1. assert (i' = i) by lia. subst i'. symmetry. exact E2.
+  Qed.
+
+  Lemma stranger_lookup : parse_principal C (did_str stranger) = Some (mkVf 99 53485 stranger).
+  Proof.
+    unfold C, W. cbn [wc_ctx parse_principal lay_world wc_principals lay_principals slookup].
+    rewrite beq_refl. reflexivity.
+  Qed.
+
+  (* the token at layer k (any audience): what Validate, caps_of, the proofs view say *)
+  Lemma ltok_validate cp k aud l sibs : (k <= d)%nat -> U l = Some (ltok ok w k aud) ->
+    exists key, validate U C cp (mkDlg l vis) sibs = (VOk, [EvVerify l key]).
+  Proof.
+    intros Hk T. destruct k as [|k].
+    - destruct ok eqn:OK.
+      + exists 0. eapply (validate_key U C cp (mkDlg l vis) sibs _ (mkVf 0 53485 (prin 0)));
+          try exact T; try reflexivity; cbn [ltok t_iss root_iss]; exact (prin_lookup 0 ltac:(lia)).
+      + exists 99. eapply (validate_key U C cp (mkDlg l vis) sibs _ (mkVf 99 53485 stranger));
+          try exact T; try reflexivity; cbn [ltok t_iss root_iss]; exact stranger_lookup.
+    - exists (N.of_nat (S k)).
+      eapply (validate_key U C cp (mkDlg l vis) sibs _ (mkVf (N.of_nat (S k)) 53485 (prin (N.of_nat (S k)))));
+        try exact T; try reflexivity; cbn [ltok t_iss]; exact (prin_lookup (S k) Hk).
+  Qed.
+
+  Lemma layer_dlgs_in k p : In p (layer_dlgs k) <-> exists j, (j < w)%nat /\ p = mkDlg (lnk w k j) vis.
+  Proof.
+    unfold layer_dlgs, layer_lnks. rewrite map_map, in_map_iff. split.
+    - intros [j [E Hj]]. apply in_seq in Hj. exists j. split; [lia | auto].
+    - intros [j [Hj E]]. exists j. split; [auto | apply in_seq; lia].
+  Qed.
+
+  Lemma ltok_cites k aud l : (k <= d)%nat -> U l = Some (ltok ok w k aud) ->
+    cites U C (mkDlg l vis) (match k with O => [] | S k' => layer_dlgs k' end).
+  Proof.
+    intros Hk T. exists (ltok ok w k aud). split; [exact T|].
+    rewrite proofs_view_all.
+    2:{ destruct k as [|k]; cbn [ltok t_prf]; [intros ? []|].
+        intros l' Hl. unfold layer_lnks in Hl. apply in_map_iff in Hl. destruct Hl as [j [<- Hj]].
+        apply in_seq in Hj. split.
+        - unfold visible. cbn [d_vis]. apply existsb_eqb_in. apply lnk_visible; lia.
+        - rewrite lay_lookup by lia. discriminate. }
+    destruct k as [|k]; cbn [ltok t_prf map d_vis]; [reflexivity|].
+    unfold aligned. apply filter_all. intros p Hp. apply layer_dlgs_in in Hp.
+    destruct Hp as [j [Hj ->]]. unfold tok. cbn [d_link]. rewrite lay_lookup by lia.
+    cbn [ltok t_iss t_aud]. apply did_eqb_eq. reflexivity.
+  Qed.
+
+  Lemma LL_tok k p : In p (LL k) -> (k <= d)%nat /\ exists l aud, p = mkDlg l vis /\ U l = Some (ltok ok w k aud).
+  Proof.
+    unfold LL. destruct (k <? d)%nat eqn:E1.
+    - apply Nat.ltb_lt in E1. intros H. apply layer_dlgs_in in H. destruct H as [j [Hj ->]].
+      split; [lia|]. exists (lnk w k j), (prin (N.of_nat (S k))). split; [reflexivity | apply lay_lookup; lia].
+    - destruct (k =? d)%nat eqn:E2; [|intros []]. apply Nat.eqb_eq in E2. subst k.
+      intros [<-|[]]. split; [lia|]. exists 0, svc. split; [reflexivity | exact lay_lookup_inv].
+  Qed.
+
+  Lemma LL_below k : (k <= d)%nat -> below LL k = match k with O => [] | S k' => layer_dlgs k' end.
+  Proof.
+    intros Hk. destruct k as [|k]; cbn [below]; [reflexivity|]. unfold LL.
+    assert ((k <? d)%nat = true) as -> by (apply Nat.ltb_lt; lia). reflexivity.
+  Qed.
+
+  Lemma LL_cites k p : In p (LL k) -> cites U C p (below LL k).
+  Proof.
+    intros H. destruct (LL_tok k p H) as [Hk [l [aud [-> T]]]]. rewrite LL_below by exact Hk.
+    eapply ltok_cites; eauto.
+  Qed.
+
+  Lemma LL_val cp k p : In p (LL k) -> exists l key, validate U C cp p (LL k) = (VOk, [EvVerify l key]).
+  Proof.
+    intros H. destruct (LL_tok k p H) as [Hk [l [aud [-> T]]]].
+    destruct (ltok_validate cp k aud l (LL k) Hk T) as [key V]. exists l, key. exact V.
+  Qed.
+
+  Lemma LL_caps k p : In p (LL k) -> caps_of U p = [(rc_add, p)].
+  Proof.
+    intros H. destruct (LL_tok k p H) as [Hk [l [aud [-> T]]]].
+    unfold caps_of, tok. cbn [d_link]. rewrite T. reflexivity.
+  Qed.
+
+  Lemma LL_iss k p : In p (LL k) ->
+    iss_of U p = match k with O => root_iss ok | S _ => prin (N.of_nat k) end.
+  Proof.
+    intros H. destruct (LL_tok k p H) as [Hk [l [aud [-> T]]]].
+    unfold iss_of, tok. cbn [d_link]. rewrite T. reflexivity.
+  Qed.
+
+  Lemma can_issue_prin i : can_issue C cap_add (prin i) = (i =? 0).
+  Proof.
+    unfold C, W. cbn [wc_ctx can_issue lay_world wc_self wc_owners existsb andb wth cap_add].
+    rewrite orb_false_r.
+    destruct (beq owner_with (did_str (prin i))) eqn:E.
+    - apply beq_eq in E. change owner_with with (did_str (prin 0)) in E. apply prin_inj in E. subst. reflexivity.
+    - apply beq_neq in E. destruct (N.eqb_spec i 0) as [->|NE]; [|reflexivity]. exfalso. apply E. reflexivity.
+  Qed.
+
+  Lemma can_issue_stranger : can_issue C cap_add stranger = false.
+  Proof. reflexivity. Qed.
+
+  Lemma no_revocations a : revoked C a = false.
+  Proof.
+    unfold C, W. cbn [wc_ctx revoked lay_world wc_revoked].
+    induction (path_of a) as [|x l IH]; [reflexivity|]. cbn [existsb orb]. exact IH.
+  Qed.
+
+  Lemma LL_top : LL d = [inv].
+  Proof. unfold LL. rewrite Nat.ltb_irrefl, Nat.eqb_refl. reflexivity. Qed.
+
+  Lemma LL_width k : (k < d)%nat -> length (LL k) = w.
+  Proof.
+    intros Hk. unfold LL. assert ((k <? d)%nat = true) as -> by (apply Nat.ltb_lt; lia).
+    unfold layer_dlgs, layer_lnks. rewrite !map_length, seq_length. reflexivity.
+  Qed.
+
+  Lemma lay_delegations : delegations W = N.of_nat (w * d + 1).
+  Proof.
+    unfold delegations, W, lay_world, wc_tokens, lay_tokens. rewrite app_length.
+    rewrite (flat_map_length_const _ w) by (intros; rewrite map_length, seq_length; reflexivity).
+    rewrite seq_length. cbn [length]. lia.
+  Qed.
+End Family.
+
+(* the harness capability on the family: the claimed capability derives unchanged *)
+Lemma std_rc : resolve_cap (std_desc c_add) cap_add rc_add = Some cap_add.
+Proof. vm_compute. reflexivity. Qed.
+Lemma std_der : ds_derives (std_desc c_add) cap_add cap_add = true.
+Proof. vm_compute. reflexivity. Qed.
+Lemma std_parse : parse_cap (std_desc c_add) rc_add = Some cap_add.
+Proof. vm_compute. reflexivity. Qed.
+
+Lemma acost_geo ok w d : forall k, (k <= d)%nat -> 1 + acost (LL ok w d) k = geo (N.of_nat w) k.
+Proof.
+  induction k as [|k IH]; intros Hk; cbn [acost geo]; [reflexivity|].
+  rewrite LL_width by lia. rewrite <- IH by lia. lia.
+Qed.
+
+Lemma ocost_lin ok w d : forall k, (k <= d)%nat -> ocost (LL ok w d) k = N.of_nat (w * k).
+Proof.
+  induction k as [|k IH]; intros Hk; cbn [ocost]; [lia|].
+  rewrite LL_width by lia. rewrite IH by lia. lia.
+Qed.
+
+(* failing roots: the whole DAG is explored, 1 + w + ... + w^d verifications; the fuel
+   d + 2 suffices (the result is Unauthorized, not out-of-fuel) *)
+Theorem lay_fail_cost w d n : (d + 2 <= n)%nat ->
+  (exists e, fst (run_at n (lay_world false w d)) = AErr e) /\
+  verifications_at n (lay_world false w d) = geo (N.of_nat w) d.
+Proof.
+  intros Hn.
+  destruct (access_layered_fail (wc_U (lay_world false w d)) (wc_ctx (lay_world false w d))
+              (std_desc c_add) cap_add rc_add (LL false w d)
+              (LL_cites false w d) (LL_val false w d) (LL_caps false w d) std_rc std_der std_parse)
+    with (D := d) (n := n) (inv := mkDlg 0 (map fst (lay_tokens false w d))) as [e [R N]].
+  - intros k p Hp. rewrite (LL_iss false w d k p Hp). destruct k as [|k].
+    + apply can_issue_stranger.
+    + rewrite can_issue_prin. apply N.eqb_neq. lia.
+  - apply LL_top.
+  - exact Hn.
+  - split; [exists e; exact R|]. unfold verifications_at, run_at. cbn [wc_can lay_world wc_inv].
+    etransitivity; [exact N|]. apply acost_geo. lia.
+Qed.
+
+(* succeeding roots: the first path succeeds; w*d + 1 verifications = one per delegation *)
+Theorem lay_ok_cost w d n : (1 <= w)%nat -> (d + 2 <= n)%nat ->
+  (exists a, fst (run_at n (lay_world true w d)) = AOk a) /\
+  verifications_at n (lay_world true w d) = N.of_nat (w * d + 1).
+Proof.
+  intros Hw Hn.
+  destruct (access_layered_ok (wc_U (lay_world true w d)) (wc_ctx (lay_world true w d))
+              (std_desc c_add) cap_add rc_add (LL true w d)
+              (LL_cites true w d) (LL_val true w d) (LL_caps true w d) std_rc std_der std_parse)
+    with (D := d) (n := n) (inv := mkDlg 0 (map fst (lay_tokens true w d))) as [a [R N]].
+  - intros p Hp. rewrite (LL_iss true w d 0%nat p Hp). cbn [root_iss]. rewrite can_issue_prin. reflexivity.
+  - intros k p Hp. rewrite (LL_iss true w d (S k) p Hp). rewrite can_issue_prin. apply N.eqb_neq. lia.
+  - apply no_revocations.
+  - apply LL_top.
+  - exact Hn.
+  - intros i Hi E. pose proof (LL_width true w d i Hi) as LW. rewrite E in LW. cbn in LW. lia.
+  - split; [exists a; exact R|]. unfold verifications_at, run_at. cbn [wc_can lay_world wc_inv].
+    etransitivity; [exact N|]. rewrite ocost_lin by lia. lia.
+Qed.
+
+(* chains of every depth, with succeeding and with failing roots: one verification per token *)
+Theorem chain_cost (ok : bool) d n : (d + 2 <= n)%nat ->
+  (if ok return Prop then exists a, fst (run_at n (chain ok d)) = AOk a
+   else exists e, fst (run_at n (chain ok d)) = AErr e) /\
+  verifications_at n (chain ok d) = N.of_nat d + 1.
+Proof.
+  intros Hn. unfold chain. destruct ok.
+  - destruct (lay_ok_cost 1 d n ltac:(lia) Hn) as [R N]. split; [exact R|]. rewrite N. lia.
+  - destruct (lay_fail_cost 1 d n Hn) as [R N]. split; [exact R|]. rewrite N. apply geo_one.
+Qed.
+
+(* ------------------------------------------------------------------ *)
+(* the quadratic bound is exceeded by the whole family                 *)
+
+Lemma geo_beats (w : N) : 2 <= w -> forall d, (10 <= d)%nat ->
+  (w * N.of_nat d + 1) * (w * N.of_nat d + 1) + 2 < geo w d.
+Proof.
+  intros Hw. induction d as [|d IH]; intros Hd; [lia|].
+  destruct (Nat.eq_dec d 9) as [->|ND].
+  - clear IH. pose proof (geo_ge_pow w 10) as G. change (N.of_nat 10) with 10 in *.
+    assert (P : 256 * (w * w) <= w ^ 10).
+    { replace (w ^ 10) with (w ^ 8 * (w * w)).
+      - apply N.mul_le_mono_r. change 256 with (2 ^ 8). apply N.pow_le_mono_l. exact Hw.
+      - change 10 with (8 + 2). rewrite N.pow_add_r, N.pow_2_r. reflexivity. }
+    nia.
+  - specialize (IH ltac:(lia)). cbn [geo].
+    replace (N.of_nat (S d)) with (N.of_nat d + 1) by lia.
+    set (x := w * N.of_nat d + 1) in *. set (g := geo w d) in *.
+    assert (X : 10 * w + 1 <= x) by (unfold x; nia).
+    replace (w * (N.of_nat d + 1) + 1) with (x + w) by (unfold x; lia).
+    assert (G2 : 2 * g <= w * g) by (apply N.mul_le_mono_r; exact Hw).
+    assert (X2 : 10 * w * x <= x * x) by (apply N.mul_le_mono_r; lia).
+    assert (X3 : 10 * w * w <= w * x) by nia.
+    nia.
+Qed.
+
+Theorem lay_exceeds_quadratic w d n : (2 <= w)%nat -> (10 <= d)%nat -> (d + 2 <= n)%nat ->
+  delegations (lay_world false w d) * delegations (lay_world false w d) + 2 <
+  verifications_at n (lay_world false w d).
+Proof.
+  intros Hw Hd Hn. destruct (lay_fail_cost w d n Hn) as [_ ->]. rewrite lay_delegations.
+  pose proof (geo_beats (N.of_nat w) ltac:(lia) d Hd).
+  replace (N.of_nat (w * d + 1)) with (N.of_nat w * N.of_nat d + 1) by lia. lia.
+Qed.
